@@ -1850,3 +1850,51 @@ M('C20','waitgroup-created-after-store','app/daemon/daemon.go','''	if _, ok := d
 		d.wgPerSameShutdownOrder[shutdownOrder] = &sync.WaitGroup{}
 	}
 ''','order/waitgroup-exists')
+
+# ---------------- defects planted in refactored forms (base = a benign variant): the generalisations
+# that keep the refactoring silent must not hide the defect
+M('C09','onvariant-visitor-stream-nolock','ads/map_impl.go',"""func (m *authenticatedMap[IdentifierType, K, V]) Stream(callback func(key K, value V) error) error {
+	m.mutex.Lock()
+	defer m.mutex.Unlock()
+""","""func (m *authenticatedMap[IdentifierType, K, V]) Stream(callback func(key K, value V) error) error {
+""",'lock/guarded-by', base='C09-13')
+M('C07','onvariant-freefunc-next-nolock','kvstore/sequence.go',"""	seq.Lock()
+	defer seq.Unlock()
+
+	if seq.next >= seq.reserved {
+		if err := leaseInterval(seq); err != nil {""","""	if seq.next >= seq.reserved {
+		if err := leaseInterval(seq); err != nil {""",'lock/guarded-by', base='C07-14')
+M('C10','onvariant-freefunc-insert-no-len','ds/list_impl.go',"""	e.list.Store(l)
+	l.len++
+""","""	e.list.Store(l)
+""",'bookkeeping/sites', base='C10-13')
+M('C10','onvariant-freefunc-insert-no-mark','ds/list_impl.go',"""	e.list.Store(l)
+	l.len++
+""","""	l.len++
+""",'bookkeeping/sites', base='C10-13')
+M('C11','onvariant-recorder-records-always','ds/set_impl.go',"""	if !lo.Return2(m.target.Set(element, types.Void)) {
+		m.changed.Add(element)
+	}
+""","""	_ = lo.Return2(m.target.Set(element, types.Void))
+	m.changed.Add(element)
+""",'set/exact-diff', base='C11-14')
+M('C11','onvariant-recorder-addall-nolock','ds/set_impl.go',"""	s.applyMutex.RLock()
+	defer s.applyMutex.RUnlock()
+
+	added := newMembershipRecorder(s)""","""	added := newMembershipRecorder(s)""",'set/apply-mutex-protocol', base='C11-14')
+M('C04','onvariant-paramobject-wrong-realm','kvstore/mapdb/synced_map.go',"""	return []byte(storedKey)[len(r.realm):]""","""	return []byte(storedKey)[len(r.keyPrefix):]""",'realm/', base='C04-14')
+M('C13','onvariant-mutate-notify-outside','ds/reactive/set_impl.go',"""	s.mutex.Lock()
+	defer s.mutex.Unlock()
+
+	appliedMutations, updateID, registeredCallbacks := s.apply(mutationFactory(s.readableSet))""","""	s.mutex.Lock()
+	appliedMutations, updateID, registeredCallbacks := s.apply(mutationFactory(s.readableSet))
+	s.mutex.Unlock()
+""",'writer/', base='C13-16')
+M('C16','onvariant-inlined-drain-drops','runtime/workerpool/workerpool.go',"""			task.markDone()""","""			_ = task""",'conserve/worker', base='C16-14')
+M('C11','onvariant-split-falling-offbyone','ds/set_impl.go',"""		}) == threshold-1 && !opposingSet.Delete(element) {""","""		}) == threshold && !opposingSet.Delete(element) {""",'arith/threshold', base='C11-13')
+M('C12','onvariant-handle-not-idempotent','ds/priorityqueue/priorityqueue.go',"""	if r.heapElement.Index() != -1 {
+		heap.Remove(&r.queue.heap, r.heapElement.Index())
+	}""","""	heap.Remove(&r.queue.heap, r.heapElement.Index())""",'pair/removal-handle', base='C12-13')
+M('C09','onvariant-freefunc-size-always','ads/map_impl.go',"""	if !has {
+		if err := adjustSize(m.size, 1); err != nil {""","""	if has || !has {
+		if err := adjustSize(m.size, 1); err != nil {""",'size/accounting', base='C09-15')
